@@ -31,7 +31,7 @@ ASSUMPTIONS = [
     'changes to that model; likelihoods, predictive models and controllers are',
     'the OS schedules the worker processes of pints.ParallelEvaluator; the harness generates the batches and worker '
     'counts, it does not control interleavings inside the evaluator']
-REQUIRED = ['first_evaluation_at_special_point', 'filter_sort_evaluate_sort', 'backend:analytic', 'backend:pkpd', 'mutation', 'grad_then_value', 'parallel', 'reduced_call', 'sample_call',
+REQUIRED = ['first_evaluation_at_special_point', 'filter_sort_evaluate_sort', 'independent_after_mutation', 'backend:analytic', 'backend:pkpd', 'mutation', 'grad_then_value', 'parallel', 'reduced_call', 'sample_call',
             'inplace_updates']
 MUT_ANALYTIC = ['m_outputs', 'm_names', 'm_sens', 'em_names', 'em_refix']
 MUT_PKPD = ['m_regimen', 'm_admin', 'm_outputs', 'm_sens', 'em_names']
@@ -553,6 +553,19 @@ def check(case):
             returned.append((what, [r for r in live if isinstance(r, np.ndarray)],
                              [r.copy() for r in live if isinstance(r, np.ndarray)]))
         last = (name, k)
+        if case.fails:
+            return
+
+    # after the user's own models were changed, every object that is documented to hold copies of them is evaluated once
+    # more (whatever the random program happened to call): it still agrees with the pristine twin
+    if mutated:
+        with case.clause('independent_after_mutation'):
+            for ci, (name, fn) in enumerate(fam.calls):
+                if name in fam.derived_independent:
+                    k = (s['seed'] + ci) % 3
+                    _same(case, _norm(fn(k)), _norm(twin.calls[ci][1](k)),
+                          '%s(arg %d) after the user models were changed vs pristine twin' % (name, k))
+            case.labels.append('independent_after_mutation')
         if case.fails:
             return
 
